@@ -31,8 +31,12 @@ def unval(x):
 NONE = ['NONE']
 
 
-def ser(ast, colname=lambda alias, name: name.lower()):
-    """Serialise one expression node."""
+def ser(ast, colname=lambda alias, name: name.lower(), params=None):
+    """Serialise one expression node.
+
+    colname(alias, name) gives the name a column is looked up by (a string: flat environment, or a pair
+    [alias, name]: environment of row records per table alias, see ser_select).  params: None, or a mapping
+    from Pony's variable keys to values - PARAM nodes are then replaced by the VALUE they stand for."""
     if ast is None:
         return NONE
     if not isinstance(ast, (list, tuple)):
@@ -41,17 +45,98 @@ def ser(ast, colname=lambda alias, name: name.lower()):
     if op == 'VALUE':
         return ['VALUE', val(ast[1])]
     if op == 'COLUMN':
-        return ['COLUMN', colname(ast[1], ast[2])]
+        c = colname(ast[1], ast[2])
+        return ['COLUMN'] + list(c) if isinstance(c, (list, tuple)) else ['COLUMN', c]
     if op == 'PARAM':
         key = ast[1]
+        if params is not None:
+            varkey, i, j = key
+            if i is not None or j is not None or varkey not in params:
+                raise Unsupported('composite parameter %r' % (key,))
+            return ['VALUE', val(params[varkey])]
         return ['PARAM', repr(key)]
-    if op in ('MAX', 'MIN'):
-        return [op, ['VALUE', val(bool(ast[1]))]] + [ser(x, colname) for x in ast[2:]]
+    if op in ('MAX', 'MIN', 'SUM', 'COUNT', 'AVG'):
+        return [op, ['VALUE', val(bool(ast[1]))]] + [ser(x, colname, params) for x in ast[2:]]
     if op == 'CASE':
         subject, whens = ast[1], ast[2]
         default = ast[3] if len(ast) > 3 else None
-        return ['CASE', ser(subject, colname), [[ser(c, colname), ser(t, colname)] for c, t in whens], ser(default, colname)]
-    return [op] + [ser(x, colname) for x in ast[1:]]
+        return ['CASE', ser(subject, colname, params), [[ser(c, colname, params), ser(t, colname, params)] for c, t in whens],
+                ser(default, colname, params)]
+    if op in ('IN', 'NOT_IN'):
+        x = ast[2]
+        if len(x) >= 1 and x[0] == 'SELECT':
+            return [op, ser(ast[1], colname, params), ['SUBSELECT', ser_select(x, params)]]
+        return [op, ser(ast[1], colname, params), ['LIST'] + [ser(i, colname, params) for i in x]]
+    if op in ('EXISTS', 'NOT_EXISTS'):
+        return [op, ser_select(['SELECT', ['ALL']] + list(ast[1:]), params)]
+    if op in ('SELECT', 'STAR', 'ROW', 'JSON_QUERY', 'RAWSQL'):
+        raise Unsupported('node %s' % op)
+    return [op] + [ser(x, colname, params) for x in ast[1:]]
+
+
+class Unsupported(Exception):
+    """The AST uses a construct spec/SqlSem.tla does not model (counted, not judged)."""
+
+
+def _qualified(alias, name):
+    return [alias, name.lower()]
+
+
+def ser_select(ast, params=None):
+    """Whole SELECT statement -> the record spec/SqlSem.tla!EvalSelect evaluates.
+    Table names are upper-cased and column names lower-cased (the providers differ only in letter case)."""
+    if ast[0] != 'SELECT':
+        raise Unsupported('statement %s' % ast[0])
+    sel = ast[1]
+    if sel[0] not in ('ALL', 'DISTINCT', 'AGGREGATES'):
+        raise Unsupported('select list %s' % sel[0])
+    st = {'distinct': sel[0] == 'DISTINCT', 'agg': sel[0] == 'AGGREGATES', 'cols': [], 'names': [], 'from': [],
+          'where': [], 'group': [], 'having': [], 'order': [], 'limit': []}
+    for k, c in enumerate(sel[1:]):
+        name = 'col%d' % (k + 1)
+        if c[0] == 'AS':
+            name, c = c[2], c[1]
+        elif c[0] == 'COLUMN':
+            name = c[2].lower()
+        st['cols'].append(ser(c, _qualified, params))
+        st['names'].append(name)
+    for section in ast[2:]:
+        kind = section[0]
+        if kind in ('FROM', 'LEFT_JOIN'):
+            for k, source in enumerate(section[1:]):
+                alias, what = source[0], source[1]
+                src = {'alias': alias, 'table': '', 'sub': [], 'on': NONE, 'left': kind == 'LEFT_JOIN' and k > 0}
+                if what == 'TABLE':
+                    name = source[2]
+                    if not isinstance(name, str):
+                        name = name[-1]
+                    src['table'] = name.upper()
+                    if len(source) > 3:
+                        src['on'] = ser(source[3], _qualified, params)
+                elif what == 'SELECT':
+                    src['sub'] = [ser_select(['SELECT'] + list(source[2]), params)]
+                    if len(source) > 3:
+                        src['on'] = ser(source[3], _qualified, params)
+                else:
+                    raise Unsupported('source %s' % what)
+                st['from'].append(src)
+        elif kind == 'WHERE':
+            st['where'] = [ser(c, _qualified, params) for c in section[1:]]
+        elif kind == 'GROUP_BY':
+            st['group'] = [ser(c, _qualified, params) for c in section[1:]]
+        elif kind == 'HAVING':
+            st['having'] = [ser(c, _qualified, params) for c in section[1:]]
+        elif kind == 'ORDER_BY':
+            for c in section[1:]:
+                if c[0] == 'DESC':
+                    st['order'].append([ser(c[1], _qualified, params), 'desc'])
+                else:
+                    st['order'].append([ser(c, _qualified, params), 'asc'])
+        elif kind == 'LIMIT':
+            st['limit'] = [['VALUE', val(section[1])], ['VALUE', val(section[2] if len(section) > 2 else 0)]]
+        else:
+            raise Unsupported('section %s' % kind)
+    return st
 
 
 def expand_string_slice(provider, ast):
